@@ -207,7 +207,7 @@ class C13(OptEngineBase):
     ENGINE_NAME = "simio"
     TIERS = {
         "quick": {"runs": 4500, "budget_s": 75, "chunk": 32},
-        "thorough": {"runs": 200000, "budget_s": 900, "chunk": 64},
+        "thorough": {"runs": 120000, "budget_s": 900, "chunk": 64},
     }
     RULE = (
         "Each run = one seeded case: platform personality (newline, default encoding, buffer size 1..8192, raw transfer limit "
